@@ -124,6 +124,11 @@ class Check(PropertyCheck):
                 # (and never one the observer-based rule looks up, when that rule is among the readers)
                 pool = ["earliest_start_time", "is_scheduled", "position_in_job"] + ([] if ask_rule else ["is_ready", "duration"])
                 lines += ["funsubk " + rng.choice(pool), "fsnap"]
+            if rng.random() < 0.05 and not ask_rule:
+                # (not when the observer-based rule is among the readers: its scorer keeps per-dispatcher state and would - rightly -
+                # treat the copy as a new dispatcher, which the model's `fork` = nothing does not describe)
+                # the episode goes on with a copy of the dispatcher and its observers (the original lives on and does something else)
+                lines += [rng.choice(["fork", "fork pickle"]), "fsnap", "fspec"]
             if resets_left and rng.random() < 0.15:
                 resets_left -= 1
                 lines += ["reset", "fsnap", "fspec"]
